@@ -215,6 +215,10 @@ def run(ctx, builddir):
     ctx.assume("batched hafnians: output[k] = (loop) hafnian with the LAST occupation number raised by k (base + k, k < cutoff), as tests/_math/test_hafnian.py states it "
                "(occupation_numbers + k*mask); compared for EVERY base vector, whether its last entry is 0 (the only use inside the library: "
                "gaussian/simulation_steps.py:_generate_sample) or not; the entry is also compared with the library's own un-batched function at twice the tolerance")
+    ctx.assume("batched sub-exploration only: a reduction whose defining sum is EMPTY (scale 0, exact value 0: e.g. odd total with an all-zero diagonal) and whose total "
+               "exceeds %d is compared with 1e-9*(1+S1), S1 = sum_i occ_i*S(occ-e_i) = the |products| of the matchings that leave one vertex unmatched, instead of the bare "
+               "absolute 1e-9: the power-trace formula produces this zero by cancelling addends of that size (measured residue 1e-10 at total 11, 4e-9 at 13, 3e-8 at 15 next to "
+               "even-total values of 1e5..1e9); every other entry, and every empty-sum entry up to total %d, keeps the default tolerance" % (EMPTY_SUM_TOTAL, EMPTY_SUM_TOTAL))
     ctx.assume("sanitizer drivers: -O1 -g -fsanitize=address,undefined -fno-sanitize-recover=undefined, ASAN_OPTIONS=detect_leaks=0 (leaks are outside the property's wording); the sweeps run a recover-mode build of the same drivers (one report per faulting source location per process) and every vector with a report or a wrong value is re-executed alone under the strict build before it is reported")
     if any(it[0] in ("haf", "variants") for it in items):
         # one process fills numba's on-disk cache for every (function, array layout) signature the
@@ -638,8 +642,26 @@ def _san_result(family, kernel, r, compare, case, weight=False):
 # ---- hafnians -------------------------------------------------------------------------------
 
 
-def _haf_reference(mat, diag, kernel, occ, cutoff):
-    """([refs], [scales])"""
+EMPTY_SUM_TOTAL = 10  # see _empty_sum_scale
+
+
+def _empty_sum_scale(absA, absD, o):
+    """Scale used by the batched sub-exploration (hafb) for an entry whose DEFINING SUM IS EMPTY
+    (scale 0: no (loop-)perfect matching with a non-zero weight exists, e.g. an odd total
+    without loops; the exact value is 0) when the total exceeds EMPTY_SUM_TOTAL: the sum of
+    |products| over the matchings that leave exactly one vertex unmatched,
+    S1 = sum_i occ_i * S(occ - e_i).  The power-trace formula obtains such a zero by cancelling
+    addends of that magnitude (measured residue on the unchanged tree: 1e-10 at total 11,
+    4e-9 at 13, 3e-8 at 15, 4e-6 at 17 next to even-total values of 1e5..1e9), so the fixed
+    absolute term 1e-9 alone is not 'floating-point accuracy' there."""
+    from mc.refmodel import kernels as K
+
+    o = tuple(int(x) for x in o)
+    return sum(n * K.matchings_abs_float(absA, absD, o[:i] + (n - 1,) + o[i + 1:]) for i, n in enumerate(o) if n)
+
+
+def _haf_reference(mat, diag, kernel, occ, cutoff, rule=None):
+    """([refs], [scales]).  rule="hafb": see _empty_sum_scale."""
     from mc.refmodel import kernels as K
 
     absA = K.matrix_abs_float(mat)
@@ -656,6 +678,8 @@ def _haf_reference(mat, diag, kernel, occ, cutoff):
         else:
             refs.append(_cfloat(K.hafnian_exact(mat, o)))
             scales.append(K.matchings_abs_float(absA, None, o))
+        if rule == "hafb" and scales[-1] == 0.0 and sum(o) > EMPTY_SUM_TOTAL:
+            scales[-1] = _empty_sum_scale(absA, absD if loop else None, o)
     return refs, scales
 
 
@@ -732,7 +756,7 @@ def _eval_haf(case):
         o = with_layout(np.array(occ, dtype=np.int64), layout if layout not in ("F",) else "C")
         return _haf_call(entry, kernel, A, D, o, cutoff)
 
-    refs, scales = _haf_reference(mat, diag, kernel, occ, cutoff)
+    refs, scales = _haf_reference(mat, diag, kernel, occ, cutoff, rule=case.get("tol_rule"))
     batch = kernel.endswith("batch")
 
     def unbatched():
@@ -1280,11 +1304,11 @@ def _work_hafb(ctx, item):
         D = np.array([complex(Fraction(e[0], dv[1]), Fraction(e[1], dv[1])) for e in dv[0]], dtype=np.complex128)
         variants.append((dname, dv, fr, D))
     targets = [dict() for _ in variants]
-    n_calls = n_entries = n_unb = n_nonzero = 0
+    n_calls = n_entries = n_unb = n_nonzero = n_empty = 0
     worst = 0.0
 
     def target(vi, o):
-        nonlocal n_calls, n_unb
+        nonlocal n_calls, n_unb, n_empty
         hit = targets[vi].get(o)
         if hit is not None:
             return hit
@@ -1292,19 +1316,23 @@ def _work_hafb(ctx, item):
         oa = np.array(o, dtype=np.int64)
         if fr is None:
             r = ref_plain(o)
-            s = K.matchings_abs_float(absA, None, o)
+            absD = None
             u = complex(H.hafnian_with_reduction(A, oa))
             kernel = "hafnian"
         else:
             r = _cfloat(fr.value(o))
-            s = K.matchings_abs_float(absA, [abs(x) for x in D], o)
+            absD = [abs(x) for x in D]
             u = complex(H.loop_hafnian_with_reduction(A, D, oa))
             kernel = "loop_hafnian"
+        s = K.matchings_abs_float(absA, absD, o)
+        if s == 0.0 and sum(o) > EMPTY_SUM_TOTAL:
+            s = _empty_sum_scale(absA, absD, o)
+            n_empty += 1
         n_calls += 1
         n_unb += 1
         if _haf_compare([r], [s], [u]) is not None:
             rep.report({"kind": "haf", "kernel": kernel, "entry": "numba", "layout": "C", "matrix_name": name, "family": fam, "matrix": _mjson(mat),
-                        "diag_name": dname, "diag": None if dv is None else _vjson(dv), "occ": list(o), "cutoff": None}, presig=(kernel, fam))
+                        "diag_name": dname, "diag": None if dv is None else _vjson(dv), "occ": list(o), "cutoff": None, "tol_rule": "hafb"}, presig=(kernel, fam))
         hit = targets[vi][o] = (r, s, u)
         return hit
 
@@ -1343,7 +1371,7 @@ def _work_hafb(ctx, item):
                                 break
                     if bad:
                         rep.report({"kind": "haf", "kernel": kernel, "entry": "numba", "layout": "C", "matrix_name": name, "family": fam, "matrix": _mjson(mat),
-                                    "diag_name": dname, "diag": None if dv is None else _vjson(dv), "occ": list(occ), "cutoff": cutoff},
+                                    "diag_name": dname, "diag": None if dv is None else _vjson(dv), "occ": list(occ), "cutoff": cutoff, "tol_rule": "hafb"},
                                    presig=(kernel, fam, _last_class(occ), cutoff <= 2))
             if not sampled and T >= 3 and occ[-1] != 0:
                 sampled = True
@@ -1355,6 +1383,7 @@ def _work_hafb(ctx, item):
     ctx.count("batch_calls_with_last_occupation_nonzero", n_nonzero)
     ctx.count("batch_entries_compared_with_exact_reference_and_library_unbatched", n_entries)
     ctx.count("unbatched_calls_at_batch_target_reductions", n_unb)
+    ctx.count("batch_target_reductions_with_empty_defining_sum_and_total>%d_(one-vertex-unmatched_scale)" % EMPTY_SUM_TOTAL, n_empty)
     # largest |batch entry - exact| of an accepted entry in thousandths of its tolerance 1e-9 + 1e-9*scale
     ctx.counters["max_batch_entry_error_millitol"] = max(ctx.counters.get("max_batch_entry_error_millitol", 0), int(worst * 1000))
 
